@@ -149,6 +149,7 @@ type Exec struct {
 	prov     map[string]string // reference term -> "fresh" | "owned"
 	havockedAll bool
 	inAtomic  bool
+	lastTraceIdx string
 	conds     []string
 	specCache map[string]Val
 	lastSpecKey, lastSpecName string
@@ -383,6 +384,9 @@ func (e *Exec) readAt(st *State, name string, ft types.Type, idx string) Val {
 			if _, isFn := ft.Underlying().(*types.Signature); isFn {
 				r.Origin = name
 			}
+			if _, isCh := ft.Underlying().(*types.Chan); isCh {
+				r.Origin = name
+			}
 			return r
 		}
 		t := e.S.Define("ld", "Int", selT)
@@ -394,6 +398,11 @@ func (e *Exec) readAt(st *State, name string, ft types.Type, idx string) Val {
 		}
 		e.ptrTypeFact(t, ft)
 		if _, isFn := ft.Underlying().(*types.Signature); isFn {
+			r := vRef(t).withT(ft)
+			r.Origin = name
+			return r
+		}
+		if _, isCh := ft.Underlying().(*types.Chan); isCh {
 			r := vRef(t).withT(ft)
 			r.Origin = name
 			return r
@@ -539,6 +548,8 @@ func (e *Exec) freshVal(prefix string, t types.Type, k Kind) Val {
 		return vRef(e.S.Fresh(prefix, "Int")).withT(t)
 	case KMap:
 		return Val{K: KMap, A: []string{e.S.Fresh(prefix, "(Array Int Int)")}}
+	case KSMap:
+		return Val{K: KSMap, A: []string{e.S.Fresh(prefix, "(Array Int String)")}}
 	case KStruct:
 		st := t.Underlying().(*types.Struct)
 		v := Val{K: KStruct, T: t}
@@ -763,7 +774,11 @@ func (e *Exec) oblige(st *State, name, kind string, props []string, goal, desc s
 		N: e.S.Len(), Hyp: []string{st.reach}, Goal: goal, Script: e.S, Inputs: append([]string{}, e.inputs...), Ex: e,
 		Splits: append([]string{}, e.conds...)}
 	e.obls = append(e.obls, o)
-	e.S.Assert(sImp(st.reach, goal))
+	if kind != "discipline" {
+		// a discipline obligation is a check on the access, not a fact about the state:
+		// assuming it (it may be the constant false) would make the rest of the path vacuous
+		e.S.Assert(sImp(st.reach, goal))
+	}
 	return o
 }
 
